@@ -236,7 +236,9 @@ fn iblock(i: u8) -> BlockNumberAndHash {
     let number = match i {
         0 => 1,
         1 | 2 => 2,
-        _ => 30,
+        3 => 30,
+        // blocks of the second search (other peers' requests, far outside the prune window)
+        _ => 40 + i as u64,
     };
     BlockNumberAndHash { number, hash: h(0xC0, i as u64) }
 }
@@ -401,24 +403,29 @@ fn inflight_family(ctx: &Ctx, report: &mut Report, only: Option<Vec<IOp>>) {
         }
         return;
     }
+    // first search: 3 peers x 4 blocks from the empty table.  Second search: the penalty mechanism
+    // only works with more download peers than the protected number (4), and a peer's scheduler is
+    // evicted after three time-outs in one prune round: 5 peers, peer 0 asked for blocks 0..3 (block 3
+    // lies outside the prune window), peers 1..4 for one far block each; searched from that state.
+    let punish_prefix: Vec<IOp> = vec![IOp::Insert(0, 0), IOp::Insert(0, 1), IOp::Insert(0, 2), IOp::Insert(0, 3), IOp::Insert(1, 4), IOp::Insert(2, 5), IOp::Insert(3, 6), IOp::Insert(4, 7)];
+    let mut dangling = 0u64;
+    for (peers, blocks, prefix, max_depth) in [(3u8, 4u8, vec![], if ctx.tier.is_thorough() { 6 } else { 5 }), (5u8, 8u8, punish_prefix, if ctx.tier.is_thorough() { 4 } else { 3 })] {
     let mut ops = vec![];
-    for p in 0..3u8 {
-        for b in 0..4u8 {
+    for p in 0..peers {
+        for b in 0..blocks {
             ops.push(IOp::Insert(p, b));
         }
     }
-    for b in 0..4u8 {
+    for b in 0..blocks {
         ops.push(IOp::RemoveBlock(b));
     }
-    for p in 0..3u8 {
+    for p in 0..peers {
         ops.push(IOp::RemovePeer(p));
     }
     ops.extend([IOp::Prune, IOp::MarkSlow, IOp::Advance(1), IOp::Advance(TIMEOUT - 1), IOp::Advance(TIMEOUT + 1)]);
-    let max_depth = if ctx.tier.is_thorough() { 6 } else { 5 };
     let mut seen: HashSet<u64> = HashSet::new();
-    seen.insert(inflight_replay(&[]).0);
-    let mut frontier: Vec<Vec<IOp>> = vec![vec![]];
-    let mut dangling = 0u64;
+    seen.insert(inflight_replay(&prefix).0);
+    let mut frontier: Vec<Vec<IOp>> = vec![prefix.clone()];
     for depth in 1..=max_depth {
         let mut next = vec![];
         for hst in &frontier {
@@ -447,7 +454,7 @@ fn inflight_family(ctx: &Ctx, report: &mut Report, only: Option<Vec<IOp>>) {
                 }
             }
         }
-        report.max_counter("max_inflight_depth_completed", depth as u64);
+        report.max_counter(&format!("max_inflight_depth_completed_{peers}_peers"), depth as u64);
         if depth == max_depth {
             if let Some(s) = next.last() {
                 report.sample(json!({"family": "inflight", "history": s, "states_so_far": seen.len()}));
@@ -458,10 +465,11 @@ fn inflight_family(ctx: &Ctx, report: &mut Report, only: Option<Vec<IOp>>) {
             break;
         }
     }
-    report.count("inflight_histories_with_record_not_listed_for_its_peer(reported,not judged)", dangling);
     report.evaluations += seen.len() as u64;
     report.traces += seen.len() as u64;
     report.outcomes.insert(fp(&seen.len()));
+    }
+    report.count("inflight_histories_with_record_not_listed_for_its_peer(reported,not judged)", dangling);
 }
 
 // =======================================================================================
